@@ -42,6 +42,8 @@ CONSTANTS Ids,                 \* possible unit ids (the id generator may pick a
           RunEnabled,          \* FALSE: units are never started (id-uniqueness configuration)
           Ops,                 \* subset of {"submit","cancel","release","status"} the clients use
           FindUnitHoldsRLock,  \* TRUE: findUnit keeps the read lock while rescanning (the code before the fix)
+          UnregFirst,          \* TRUE: Release drops the unit from activeUnits BEFORE it removes the directory (seeded defect
+                               \* c13-release-delete-before-rm); FALSE: RemoveAll first, delete last (the code)
           TruncFirst,          \* TRUE: UpdateFullStatus truncates before it writes (the code before its repair)
           KF_EmptyStatus,      \* TRUE: Durable is checked modulo the known finding "empty status after crash"
           KF_LiveRunnerFailed, \* TRUE: Durable is checked modulo the finding "unit with a live runner marked Failed at restart"
@@ -440,22 +442,27 @@ CancelWait(c) ==
   /\ Goto(c, IF loc[c] = "rl_wait" THEN "rl_u_cancel" ELSE "cn_u_cancel")
   /\ UNCHANGED <<disk, flock, up, active, mem, mon, alock, todo, uid, ufs, rl, ours, rsig, child, ticks, book, bad>>
 
-\* BaseWorkUnit.Release: RemoveAll(unitdir); then delete from activeUnits
+\* BaseWorkUnit.Release: RemoveAll(unitdir); then delete from activeUnits (UnregFirst: the other way round).
+\* The release is answered "released" after the second of the two steps.
+RelFirst  == "rl_rm"
+RelSecond == "rl_unreg"
 ReleaseRm(c) ==
-  /\ up /\ loc[c] = "rl_rm"
+  /\ up /\ loc[c] = (IF UnregFirst THEN RelSecond ELSE RelFirst)
   /\ LET i == uid[c] IN
        /\ dir' = [dir EXCEPT ![i] = FALSE] /\ sfile' = [sfile EXCEPT ![i] = Absent]
        /\ stdin' = [stdin EXCEPT ![i] = "absent"] /\ stdout' = [stdout EXCEPT ![i] = 0]
-  /\ Goto(c, "rl_unreg")
-  /\ UNCHANGED <<flock, up, active, mem, mon, alock, todo, uid, ufs, rl, ours, rsig, child, ticks, book, bad>>
+       /\ released' = [released EXCEPT ![i] = @ \/ UnregFirst]
+  /\ Goto(c, IF UnregFirst THEN "done" ELSE RelSecond)
+  /\ UNCHANGED <<flock, up, active, mem, mon, alock, todo, uid, ufs, rl, ours, rsig, child, ticks,
+                 opsLeft, acked, told, pre, relreq, cnreq, gen, emptyRec, liveFail, crashes, bad>>
 
 ReleaseUnreg(c) ==
-  /\ up /\ loc[c] = "rl_unreg" /\ alock = None
+  /\ up /\ loc[c] = (IF UnregFirst THEN RelFirst ELSE RelSecond) /\ alock = None
   /\ LET i == uid[c] IN
        /\ active' = active \ {i}
-       /\ released' = [released EXCEPT ![i] = TRUE]
+       /\ released' = [released EXCEPT ![i] = @ \/ ~UnregFirst]
        /\ gen' = [gen EXCEPT ![i] = 0]
-  /\ Goto(c, "done")
+  /\ Goto(c, IF UnregFirst THEN RelSecond ELSE "done")
   /\ UNCHANGED <<disk, flock, up, mem, mon, alock, todo, uid, ufs, rl, ours, rsig, child, ticks, opsLeft, acked, told, pre, relreq, cnreq, emptyRec, liveFail, crashes, bad>>
 
 \* ---------------------------------------------------------------- crash, restart, recovery scan
